@@ -20,7 +20,10 @@ RULE = ('cases: one import of one exported representation. Per key (secret class
         'near n, random; compressed and uncompressed; random network of the 11 defined) the representations private_hex, '
         'private_byte, secret, wif(), public_hex/_byte, public_compressed_*, public_uncompressed_*, public_point(), HDKey.wif_key(), '
         'HDKey.wif(private/public) for every witness type x multisig of the network (depths 0..255, child numbers 0, 2^31-1, 2^31, '
-        '2^32-1, random), encrypt() for a few, are imported by Key / Key.from_wif / HDKey / HDKey.from_wif without hints, with the '
+        '2^32-1, random), encrypt() for a few, the public representations of PUBLIC-ONLY objects (imported from compressed / uncompressed '
+        'hex, bytes, point, public(); secrets searched with the reference so that X or Y has leading zero nibbles/bytes), and exports made '
+        'after a call history on the same object (repeated exports with other arguments in between, wif(prefix=..), network_change() to a '
+        'network with other version bytes) are imported by Key / Key.from_wif / HDKey / HDKey.from_wif without hints, with the '
         'network, and with all hints, and classified by get_key_format. non-trivial = distinct (secret class, representation, '
         'network, hint mode)')
 TRUSTED_BASE = ['vf/refs/secp256k1.py (public point of the secret)', 'vf/refs/chain.py + golden/chainparams.json (WIF / extended-key prefixes, candidate sets)',
@@ -59,13 +62,33 @@ def secret_of_class(rnd, cls):
         return rnd.randint(1, 70000).to_bytes(32, 'big')
     if cls == 'near-n':
         return (ec.N - rnd.randint(1, 70000)).to_bytes(32, 'big')
+    if cls == 'y-lead0-nibble':
+        return secret_with_point_feature(rnd, 1, 4, rnd.random() < 0.5)
+    if cls == 'y-lead0-byte':
+        return secret_with_point_feature(rnd, 1, 8, rnd.random() < 0.5)
+    if cls == 'x-lead0-byte':
+        return secret_with_point_feature(rnd, 0, 8, rnd.random() < 0.5)
     while True:
         b = rnd.randbytes(32)
         if 1 <= int.from_bytes(b, 'big') < ec.N:
             return b
 
 
-SECRET_CLASSES = ['lead0-1', 'lead0-2', 'lead0-3', 'ends01', 'small', 'near-n', 'rnd', 'rnd']
+SECRET_CLASSES = ['lead0-1', 'lead0-2', 'lead0-3', 'ends01', 'small', 'near-n', 'rnd', 'y-lead0-nibble', 'y-lead0-byte', 'x-lead0-byte',
+                  'rnd', 'y-lead0-nibble']
+
+
+def secret_with_point_feature(rnd, coord, bits, small):
+    """Search (with the reference) a secret whose public point has `bits` leading zero bits in X (coord 0) or Y (coord 1):
+    the classes where fixed-width hex / byte exports of a coordinate can lose their zero padding."""
+    k = rnd.randint(1, 5000) if small else rnd.randrange(1, ec.N - 100000)
+    pt = ec.mul_g(k)
+    for _ in range(40000):
+        if pt[coord] >> (256 - bits) == 0:
+            return k.to_bytes(32, 'big')
+        k += 1
+        pt = ec.add(pt, ec.G)
+    raise RuntimeError('no secret with the requested point feature found')
 
 
 def gen_key(rnd, i):
@@ -78,7 +101,10 @@ def gen_key(rnd, i):
     net = rnd.choice(chain.NETWORK_NAMES)
     depth = rnd.choice(DEPTHS + [rnd.randrange(256)])
     wts = sorted(chain.NETWORKS[net]['hd'])
-    return {'secret': sec.hex(), 'cls': cls, 'compressed': rnd.random() < 0.5, 'network': net,
+    lp = lambda x: chain.NETWORKS[x]['hd']['legacy']['single'][0]
+    others = [x for x in chain.NETWORK_NAMES if lp(x) != lp(net) and chain.NETWORKS[x]['wif'] != chain.NETWORKS[net]['wif']]
+    net2 = rnd.choice(others)
+    return {'net2': net2, 'secret': sec.hex(), 'cls': cls, 'compressed': rnd.random() < 0.5, 'network': net,
             'chain': rnd.randbytes(32).hex(), 'depth': depth, 'fp': (rnd.randbytes(4) if depth else b'\0' * 4).hex(),
             'child': (rnd.choice(CHILDREN + [rnd.getrandbits(32), rnd.getrandbits(31)]) if depth else 0),
             'wt0': rnd.choice(wts), 'bip38': False, 'password': rnd.choice(['pw', 'correct horse', 'x y z'])}
@@ -101,10 +127,10 @@ def observe(k, hd):
     return o
 
 
-def importer(mode, rep, kc, ext=None):
+def importer(mode, rep, kc, ext=None, net=None):
     """-> callable performing the import for `mode`; ext = (wt, ms) of an extended-key representation."""
     keys = _keys()
-    n, c = kc['network'], kc['compressed']
+    n, c = net or kc['network'], kc['compressed']
     if mode == 'Key/nohint':
         return lambda: keys.Key(rep)
     if mode == 'Key/hint':
@@ -157,7 +183,7 @@ class Tally:
 
 
 # ------------------------------------------------------------------ the comparator
-def check_import(col, tally, kc, truth, rep_name, rep, mode, expect, ext=None, hd=False, only=None):
+def check_import(col, tally, kc, truth, rep_name, rep, mode, expect, ext=None, hd=False, only=None, net=None):
     """expect: attr -> ('eq', value) | ('in', [values]) | ('readings', [[net, wt, ms], ...])"""
     if only and only != (rep_name, mode):
         return
@@ -167,7 +193,7 @@ def check_import(col, tally, kc, truth, rep_name, rep, mode, expect, ext=None, h
     tally.add('%s/%s' % (rep_name.split(':')[0], mode), (kc['cls'], rep_name, kc['network'], mode),
               {'rep': rep_name, 'mode': mode, 'network': kc['network'], 'secret_class': kc['cls'], 'value': rep if isinstance(rep, str) else repr(rep)[:140]})
     try:
-        k = importer(mode, rep, kc, ext)()
+        k = importer(mode, rep, kc, ext, net)()
         o = observe(k, hd)
     except Exception as e:
         txt = '%s: %s' % (type(e).__name__, e)
@@ -329,6 +355,52 @@ def run_key(kc, col, tally, only=None):
         check_import(col, tally, kc, truth, 'public_point', rep, 'Key/nohint', {k: v for k, v in pub_expect_c.items() if k not in ('compressed', 'public_hex')}, only=only)
         check_import(col, tally, kc, truth, 'public_point', rep, 'Key/hint', dict(pub_expect_c if c else pub_expect_u, network=('eq', n)), only=only)
         check_format(col, tally, kc, 'public_point', rep, {'format': 'point', 'is_private': False}, only=only)
+    # WIF export after a call history on the same object (export with another prefix first)
+    n2 = kc.get('net2') or ('testnet' if n in ('bitcoin', 'regtest', 'dogecoin') else 'bitcoin')
+    if wif is not None:
+        try:
+            k0.wif(prefix=bytes.fromhex(chain.NETWORKS[n2]['wif']))
+        except Exception:
+            pass
+        w2 = export('wif:after-other-prefix', lambda: k0.wif(), chain.wif_encode(n, sec, c))
+        w3 = export('wif:other-prefix-after-default', lambda: k0.wif(prefix=chain.NETWORKS[n2]['wif']), chain.wif_encode(n2, sec, c))
+        if w3 is not None:
+            check_import(col, tally, kc, truth, 'wif:other-prefix-after-default', w3, 'Key/net', dict(priv_expect, compressed=('eq', c), network=('eq', n2)),
+                         only=only, net=n2)
+    # public-only objects (no secret inside): imported from a compressed / uncompressed public key, then exported in EVERY public
+    # representation (the missing coordinate has to be recomputed) and re-imported
+    order = random.Random(kc['secret'])
+    for src, make in (('pubhex-c', lambda: keys.Key(pub_c.hex(), network=n)), ('pubbyte-c', lambda: keys.Key(pub_c, network=n)),
+                      ('pubhex-u', lambda: keys.Key(pub_u.hex(), network=n)), ('point', lambda: keys.Key((pt[0], pt[1]), network=n)),
+                      ('public()', lambda: keys.Key(sec, network=n, compressed=True).public())):
+        if only and not only[0].endswith('@' + src):
+            continue
+        try:
+            kp = make()
+        except Exception as e:
+            col.violation(None, 'public-only import %s raised %r' % (src, e), case0, repr(e)[:200], 'a key')
+            continue
+        src_c = src != 'pubhex-u'
+        reps = [('public_hex', lambda: kp.public_hex, (pub_c if src_c else pub_u).hex(), src_c, 'public' if src_c else 'public_uncompressed'),
+                ('public_byte', lambda: kp.public_byte, pub_c if src_c else pub_u, src_c, 'bin_compressed' if src_c else 'bin'),
+                ('public_compressed_hex', lambda: kp.public_compressed_hex, pub_c.hex(), True, 'public'),
+                ('public_compressed_byte', lambda: kp.public_compressed_byte, pub_c, True, 'bin_compressed'),
+                ('public_uncompressed_hex', lambda: kp.public_uncompressed_hex, pub_u.hex(), False, 'public_uncompressed'),
+                ('public_uncompressed_byte', lambda: kp.public_uncompressed_byte, pub_u, False, 'bin'),
+                ('public_point', lambda: tuple(kp.public_point()), (pt[0], pt[1]), None, 'point')]
+        order.shuffle(reps)                    # the lazily computed attributes must not depend on the order they are asked for
+        for name, fn, want, comp, fmt in reps:
+            rname = '%s@%s' % (name, src)
+            rep = export(rname, fn, want)
+            if rep is None:
+                continue
+            if comp is None:
+                pe = {k: v for k, v in pub_expect_c.items() if k not in ('compressed', 'public_hex')}
+            else:
+                pe = pub_expect_c if comp else pub_expect_u
+            check_import(col, tally, kc, truth, rname, rep, 'Key/nohint', pe, only=only)
+            check_import(col, tally, kc, truth, rname, rep, 'Key/net', dict(pe, network=('eq', n)), only=only)
+            check_format(col, tally, kc, rname, rep, {'format': fmt, 'is_private': False}, only=only)
     # BIP38 (slow: two scrypt evaluations)
     if kc.get('bip38'):
         rep = export('bip38', lambda: k0.encrypt(kc['password']), None)
@@ -364,9 +436,7 @@ def run_key(kc, col, tally, only=None):
         for wt, ms in combos:
             for priv in ((True, False) if private else (False,)):
                 rname = 'ext-%s:%s:%s:%s:%s' % ('priv' if priv else 'pub', label, wt, 'ms' if ms else 'single', 'default' if label == 'hm' else 'override')
-                if only and only[0] != rname:
-                    continue
-                ver = chain.hd_prefix(n, wt, ms, priv)
+                ver = chain.hd_prefix(n, wt, ms, priv)      # (exports are never skipped on replay: they are the object's call history)
                 want = xk.serialize(ver, priv)
                 if label == 'hm':
                     rep = export(rname, (lambda: h.wif_private()) if priv else (lambda: h.wif_public()), want)
@@ -399,6 +469,41 @@ def run_key(kc, col, tally, only=None):
                 check_import(col, tally, kc, truth, 'wif_key', wk, 'Key/nohint', we, only=only)
                 check_import(col, tally, kc, truth, 'wif_key', wk, 'HDKey/net', dict(we, network=('eq', n)), hd=True, only=only)
                 check_format(col, tally, kc, 'wif_key', wk, {'format': 'wif_compressed', 'is_private': True, 'networks': wif_nets}, only=only)
+        if label in ('h', 'hp'):
+            # ---- call histories on the SAME object before the export that is judged
+            # (1) every export once more, in another order (second call with equal arguments, other arguments in between)
+            for wt, ms in reversed(combos):
+                for priv in ((False, True) if private else (False,)):
+                    rname = 'ext-%s:%s:%s:%s:repeat' % ('priv' if priv else 'pub', label, wt, 'ms' if ms else 'single')
+                    export(rname, lambda: h.wif(is_private=priv, witness_type=wt, multisig=ms), xk.serialize(chain.hd_prefix(n, wt, ms, priv), priv))
+            # (2) network_change() to a network with other version bytes, then the whole prefix matrix of that network
+            try:
+                h.network_change(n2)
+            except Exception as e:
+                col.violation(None, 'network_change(%s) raised %r' % (n2, e), case0, repr(e)[:200], True)
+                continue
+            combos2 = [(wt, ms) for wt in sorted(chain.NETWORKS[n2]['hd']) for ms in (False, True)]
+            if label == 'hp':
+                combos2 = combos2[::2]
+            for wt, ms in combos2:
+                for priv in ((True, False) if private else (False,)):
+                    rname = 'ext-%s:%s:%s:%s:netchange' % ('priv' if priv else 'pub', label, wt, 'ms' if ms else 'single')
+                    ver = chain.hd_prefix(n2, wt, ms, priv)
+                    rep = export(rname, lambda: h.wif(is_private=priv, witness_type=wt, multisig=ms), xk.serialize(ver, priv))
+                    if rep is None:
+                        continue
+                    rd = [[r[0], r[1], r[2]] for r in chain.hd_prefix_readings(ver) if r[3] == priv]
+                    truth['ext'][rname] = {'readings': rd}
+                    truth['cand_networks'][rname] = sorted({r[0] for r in rd})
+                    net_e = dict(hd_priv if priv else hd_pub, network=('eq', n2))
+                    check_import(col, tally, kc, truth, rname, rep, 'HDKey/net', net_e, ext=(wt, ms), hd=True, only=only, net=n2)
+                    if not priv:
+                        check_import(col, tally, kc, truth, rname, rep, 'HDfrom_wif/net', net_e, ext=(wt, ms), hd=True, only=only, net=n2)
+            if private:
+                wk2 = export('wif_key:netchange', lambda: h.wif_key(), chain.wif_encode(n2, sec, True))
+                if wk2 is not None:
+                    check_import(col, tally, kc, truth, 'wif_key:netchange', wk2, 'Key/net',
+                                 dict(priv_expect, compressed=('eq', True), network=('eq', n2), public_hex=('eq', pub_c.hex())), only=only, net=n2)
 
 
 # ------------------------------------------------------------------ plan / shards / replay
